@@ -16,5 +16,5 @@ Proof. vm_compute. reflexivity. Qed.
 Lemma debug_unguarded_is : debug_unguarded = [("celeritas/track/StatusChecker.cc", "StatusChecker::data_")].
 Proof. vm_compute. reflexivity. Qed.
 
-Lemma racy_reported_is : racy_reported = [("celeritas/user/ActionDiagnostic.cc", "ActionDiagnostic::store_")].
+Lemma racy_reported_is : racy_reported = [].
 Proof. vm_compute. reflexivity. Qed.
